@@ -276,6 +276,48 @@ func init() {
 		}))
 	}
 	ops["names.slspec"] = func(f Fields) string { return f["want"] }
+	// independence of the language systems read from one table (LangSys offsets may be shared): add
+	// feature 99 to the first language system (sorted order) of the ScriptListInfo, then list them all
+	ops["names.slshare"] = func(f Fields) string {
+		return nmCanon(guard(func() string {
+			info, err := gtab.Read(bytes.NewReader(f.Hex("b")), gtab.TypeGsub)
+			if err != nil {
+				return "read-err"
+			}
+			type ent struct {
+				s  string
+				ff *gtab.Features
+			}
+			list := func() ([]ent, string) {
+				var out []ent
+				for tag, ff := range info.ScriptList {
+					sc, l, e := gtab.VerifBCP47ToOtf(tag)
+					if e != nil || ff == nil {
+						return nil, "back-err"
+					}
+					out = append(out, ent{nmLangSys(sc, l, ff), ff})
+				}
+				sort.Slice(out, func(i, j int) bool { return out[i].s < out[j].s })
+				return out, ""
+			}
+			es, msg := list()
+			if msg != "" {
+				return msg
+			}
+			if len(es) > 0 {
+				es[0].ff.Optional = append(es[0].ff.Optional, 99)
+			}
+			es, msg = list()
+			if msg != "" {
+				return msg
+			}
+			parts := make([]string, len(es))
+			for i, e := range es {
+				parts[i] = e.s
+			}
+			return strings.Join(parts, ",")
+		}))
+	}
 	ops["names.generator-panic"] = func(f Fields) string { return "generator-panic:" + f["section"] }
 	ops["names.slrt"] = func(f Fields) string {
 		return nmCanon(guard(func() string {
@@ -905,8 +947,140 @@ func nmScriptListCase(c *Ctx, pairs [][2]string, class string) {
 
 // nmScriptLists: language systems for pairs of the two tag tables through (*gtab.Info).Encode and
 // gtab.Read (and through an independent Lean reader of the script list)
+// nmHandScriptList lays out a GSUB table by hand.  scripts: tag -> list of (language tag or "" for the
+// default language system, index of the LangSys table it points to); langSys: the LangSys tables of that
+// script (required feature, feature indices).  Several records may point to one table.
+type nmHandRec struct {
+	lang string
+	sys  int
+}
+type nmHandSys struct {
+	req  int
+	opts []int
+}
+type nmHandScript struct {
+	tag  string
+	recs []nmHandRec
+	sys  []nmHandSys
+}
+
+func nmHandScriptList(scripts []nmHandScript) []byte {
+	w := func(b []byte, v int) []byte { return append(b, byte(v>>8), byte(v)) }
+	var tables [][]byte
+	for _, sc := range scripts {
+		nl := 0
+		for _, rc := range sc.recs {
+			if rc.lang != "" {
+				nl++
+			}
+		}
+		pos := 4 + 6*nl
+		sysOff := make([]int, len(sc.sys))
+		var sysBytes []byte
+		for i, ls := range sc.sys {
+			sysOff[i] = pos + len(sysBytes)
+			sysBytes = w(sysBytes, 0)
+			sysBytes = w(sysBytes, ls.req)
+			sysBytes = w(sysBytes, len(ls.opts))
+			for _, o := range ls.opts {
+				sysBytes = w(sysBytes, o)
+			}
+		}
+		var t []byte
+		dflt := 0
+		for _, rc := range sc.recs {
+			if rc.lang == "" {
+				dflt = sysOff[rc.sys]
+			}
+		}
+		t = w(t, dflt)
+		t = w(t, nl)
+		for _, rc := range sc.recs {
+			if rc.lang != "" {
+				t = append(t, rc.lang...)
+				t = w(t, sysOff[rc.sys])
+			}
+		}
+		tables = append(tables, append(t, sysBytes...))
+	}
+	var sl []byte
+	sl = w(sl, len(scripts))
+	off := 2 + 6*len(scripts)
+	for i, sc := range scripts {
+		sl = append(sl, sc.tag...)
+		sl = w(sl, off)
+		off += len(tables[i])
+	}
+	for _, t := range tables {
+		sl = append(sl, t...)
+	}
+	// feature list with 100 features without lookups, empty lookup list
+	const nf = 100
+	var fl []byte
+	fl = w(fl, nf)
+	for i := 0; i < nf; i++ {
+		fl = append(fl, "test"...)
+		fl = w(fl, 2+6*nf+4*i)
+	}
+	for i := 0; i < nf; i++ {
+		fl = append(fl, 0, 0, 0, 0)
+	}
+	hdr := []byte{0, 1, 0, 0}
+	hdr = w(hdr, 10)
+	hdr = w(hdr, 10+len(sl))
+	hdr = w(hdr, 10+len(sl)+len(fl))
+	out := append(hdr, sl...)
+	out = append(out, fl...)
+	return append(out, 0, 0)
+}
+
+// nmSharedLangSys: tables as real fonts have them — several language systems of a script (default and/or
+// languages) pointing at ONE LangSys table; read through gtab.Read, the language systems must be
+// independent values
+func nmSharedLangSys(c *Ctx) {
+	r := c.Rng
+	sys := func(n int) []nmHandSys {
+		out := make([]nmHandSys, n)
+		for i := range out {
+			out[i] = nmHandSys{req: 0xFFFF, opts: []int{1 + i, 10 + i}}
+			if r.Chance(1, 3) {
+				out[i].req = r.Range(0, 5)
+			}
+		}
+		return out
+	}
+	cases := [][]nmHandScript{
+		{{"latn", []nmHandRec{{"", 0}, {"DEU ", 0}}, sys(1)}},                           // default and a language share
+		{{"latn", []nmHandRec{{"", 0}, {"DEU ", 1}, {"NLD ", 1}}, sys(2)}},              // two languages share
+		{{"latn", []nmHandRec{{"", 0}, {"DEU ", 0}, {"NLD ", 0}, {"TRK ", 0}}, sys(1)}}, // everything shares
+		{{"latn", []nmHandRec{{"DEU ", 0}, {"NLD ", 1}, {"TRK ", 0}}, sys(2)}},          // no default, non-adjacent records share
+		{{"cyrl", []nmHandRec{{"", 0}, {"RUS ", 0}}, sys(1)}, {"latn", []nmHandRec{{"", 0}, {"DEU ", 1}}, sys(2)}},
+		{{"arab", []nmHandRec{{"ARA ", 0}, {"URD ", 0}}, sys(1)}, {"latn", []nmHandRec{{"", 0}}, sys(1)}},
+		{{"latn", []nmHandRec{{"", 0}, {"DEU ", 1}, {"NLD ", 2}}, sys(3)}}, // control: nothing shared
+	}
+	for i := 0; i < 6; i++ { // random sharing patterns
+		langs := []string{"", "DEU ", "NLD ", "TRK ", "ROM ", "PLK "}
+		n := r.Range(2, len(langs))
+		k := r.Range(1, n)
+		var recs []nmHandRec
+		for j := 0; j < n; j++ {
+			recs = append(recs, nmHandRec{langs[j], r.Intn(k)})
+		}
+		cases = append(cases, []nmHandScript{{"latn", recs, sys(k)}})
+	}
+	for _, sc := range cases {
+		var data []byte
+		if nmTry(func() { data = nmHandScriptList(sc) }) != "" {
+			continue
+		}
+		c.Case(Direct, "names.slshare", "b="+hx(data), true)
+		c.Stat("scriptlist_class", "hand-laid-shared-langsys")
+	}
+}
+
 func nmScriptLists(c *Ctx, sk, lk []string) {
 	r := c.Rng
+	nmSharedLangSys(c)
 	if c.Tier == "thorough" {
 		for _, s := range sk { // every pair of the two tables: one script with all language systems
 			var pairs [][2]string
@@ -1472,6 +1646,16 @@ func nmNameTable(c *Ctx) {
 	c.Case(Direct, "names.namert", "eid=1 info=1|en|1000+5461|120", true) // one record too many: refused
 	c.Case(Direct, "names.namert", "eid=1 info=3|en-US|0+5000|120.121,1|en|0+400|122", true)
 	c.Stat("name_class", "directory-capacity")
+	// the storage holds EXACTLY p bytes of distinct strings when one more distinct string is added:
+	// p <= 65535 is faithful, p >= 65536 must be refused (the new string would start beyond offset 0xFFFF)
+	for _, p := range []int{65534, 65535, 65536, 65537} {
+		nmNameCase(c, []nmEntry{{1, "en", 1, strings.Repeat("a", 32768)}, {1, "en", 2, strings.Repeat("b", p-32768)},
+			{1, "en", 3, "xy"}}, 1, fmt.Sprintf("storage-before-last-string-%d", p))
+	}
+	nmNameCase(c, []nmEntry{{3, "en-US", 1, strings.Repeat("a", 16384)}, {3, "en-US", 2, strings.Repeat("b", 16384)},
+		{3, "en-US", 3, "xy"}}, 1, "storage-before-last-string-65536")
+	nmNameCase(c, []nmEntry{{3, "en-US", 1, strings.Repeat("a", 16384)}, {3, "en-US", 2, strings.Repeat("b", 16383)},
+		{3, "en-US", 3, "xy"}, {1, "en", 1, "m"}}, 10, "storage-before-last-string-65534")
 	// storage just below / at / above the 16-bit limit (strings of one repeated character)
 	for _, total := range []int{65534, 65535, 65536, 65537, 70000, 105536, 105540, 140000} {
 		// three Windows strings (2 bytes per unit) and one Mac string making up `total` bytes
